@@ -13,6 +13,12 @@ op:
   a whole history of one meta-model: `reg` = `register_scope_providers` (null: not called before this
   model), `{"o":i}` = the i-th provider object of `provs` (one object may be bound to several keys),
   `split` of a reference = `split` parameter of its match rule.
+  {"op":"resolve", …the fields of "select"…, "name":s, "found":bool, "postpone":[n…], "passes":k,
+   "builtins":[[name, conforms:bool]…]}
+    → {"prov":…, "calls":[["custom",n] | ["rrel",s] | ["default"]…], "result":["bound",origin] | ["unknown"] | ["delayed"]}
+  one reference through the passes of `resolve_one_step` in a meta-model created with `builtins`:
+  `found` = the model holds an object of that name every provider finds; custom providers listed in
+  `postpone` answer `Postponed()` in the first pass; origin = "custom:n" | "rrel:expr" | "default" | "builtin:name".
   RREL trees are represented by their source text (`parse = id`).
 -/
 open Lean Wire Select
@@ -103,8 +109,51 @@ def handleCalls (j : Json) : Json :=
       let calls := run Gen.providerOrder view id [] steps
       Json.mkObj [("calls", Json.arr (calls.map (fun cs => Json.arr (cs.map (callJson provs)).toArray)).toArray)]
 
+def parseBuiltins (a : Array Json) : Option (List (String × (String × Bool))) :=
+  a.toList.mapM fun e => do
+    let xs ← asArr? e
+    if xs.size ≠ 2 then none
+    let k ← asStr? (← xs[0]?)
+    let c ← asBool? (← xs[1]?)
+    pure (k, ("builtin:" ++ k, c))
+
+def callProvJson : Call Nat String → Json
+  | .user n => Json.arr #["custom", toJson n]
+  | .find t _ _ => Json.arr #["rrel", toJson t]
+  | .dflt => Json.arr #["default"]
+
+def handleResolve (j : Json) : Json :=
+  match getStr? j "cls", getStr? j "attr", (getArr? j "occs").bind parseOccs, getNat? j "i",
+      (getArr? j "reg").bind parseReg with
+  | some cls, some attr, some occs, some i, some raw =>
+    match occs[i]?, getStr? j "name", getBool? j "found", getNatList? j "postpone", getNat? j "passes",
+        (getArr? j "builtins").bind parseBuiltins with
+    | some o, some name, some found, some postpone, some passes, some builtins =>
+      if o.attr ≠ attr then badOp
+      else
+        let g := refRrel (visit true occs) i attr
+        let d : Dict Nat String := register id raw
+        let env : Env (String × Bool) := { builtins := builtins, conforms := fun b => b.2 }
+        let ask (pass : Nat) : Call Nat String → Answer (String × Bool) := fun c =>
+          if !found then .nothing
+          else match c with
+            | .user n => if postpone.contains n && pass == 0 then .postponed else .found (s!"custom:{n}", true)
+            | .find t _ _ => .found ("rrel:" ++ t, true)
+            | .dflt => .found ("default", true)
+        let (calls, res) := resolvePasses Gen.providerOrder (fun _ => none) d env ⟨cls, attr, g, name, none⟩
+          ((List.range passes).map ask)
+        let resJ := match res with
+          | .bound b => Json.arr #["bound", toJson b.1]
+          | .unknown => Json.arr #["unknown"]
+          | .delayed => Json.arr #["delayed"]
+        Json.mkObj [("prov", provJson (select Gen.providerOrder d cls attr g)),
+          ("calls", Json.arr (calls.map callProvJson).toArray), ("result", resJ)]
+    | _, _, _, _, _, _ => badOp
+  | _, _, _, _, _ => badOp
+
 def handle (j : Json) : Json :=
   match getStr? j "op" with
+  | some "resolve" => handleResolve j
   | some "select" =>
     match getStr? j "cls", getStr? j "attr", (getArr? j "occs").bind parseOccs, getNat? j "i",
         (getArr? j "reg").bind parseReg with
